@@ -138,6 +138,32 @@ def region_cells(r, ncols):
 
 
 # ------------------------------------------------------------------ executing on the implementation
+OBSERVE_EACH = False      # C10: call the observers on every value as soon as it is returned (values derived later must not see stale answers)
+
+
+def touch(o):
+    """call every read-only observer once (whatever they cache is then in place before the next operation copies the object)"""
+    from pyplate import Container
+    try:
+        if isinstance(o, Container):
+            ss = o.get_substances()
+            o.get_volume()
+            for s in list(ss)[:2]:
+                try:
+                    o.get_concentration(s)
+                except Exception:  # noqa
+                    pass
+        else:
+            o.get_substances()
+            o.get_volumes()
+            o[1, :].get_substances()
+            o[1, :].get_volumes()
+            for w in list(o.wells.flatten())[:3]:
+                touch(w)
+    except Exception:  # noqa
+        pass
+
+
 class Impl:
     """runs a program on the real API; env maps variable -> object"""
 
@@ -232,6 +258,8 @@ class Impl:
                 continue
             for v, o in out:
                 self.env[v] = o
+                if OBSERVE_EACH:
+                    touch(o)
             obs.append({'ok': True, 'out': [(v, self.dump(o)) for v, o in out]})
         return obs
 
